@@ -118,7 +118,7 @@ def run_impl(case):
                 ap, alen = cc.hx(d.payload.to_knx()), d.payload.calculated_length()
             except ConversionError:
                 # C05's antecedent: the decoded service refuses to encode again (e.g. A_MemoryExtended_Read count 251)
-                return {"out": "payload-refuses", "line": None}
+                return {"out": "payload-refuses", "line": f"cemifull reser {case['raw']}", "expect": "conv"}
         else:
             ap, alen = "none", 0
         try:
@@ -129,7 +129,8 @@ def run_impl(case):
         except Exception as e:  # noqa: BLE001
             res = f"other:{type(e).__name__}"
         case["_fr"] = fr
-        return {"out": res, "line": f"cemi reser {case['raw']} {ap} {alen}"}
+        # full model: parse with the APCI model, re-encode the decoded service with the APCI model, serialise
+        return {"out": res, "line": f"cemifull reser {case['raw']}"}
     if _POOL is None:
         import random
         _POOL = payload_pool(random.Random(1))
